@@ -175,6 +175,8 @@ theorem eval_node_and_trail (p : Path) (d : Node) (h : ∀ t ∈ p, tokOk t = tr
 /-! ## Translated functions (YtkModel/Generated/Funcs.lean, regenerated from the Go source on every
     run by extract/translate.go): the translation EQUALS the hand-written model, for all inputs.
     An edit of the Go function changes the regenerated definition and these stop checking. -/
+end Ytk.C10
+
 namespace Ytk.C10
 open Ytk.Generated
 
